@@ -790,25 +790,31 @@ func (vm *vm) restoreStacks(iterLen, refLen uint32) (ex *Exception) {
 // If closeIters is false the open iterators are dropped without calling their return() methods
 // (an uncatchable exception, such as an interrupt or a stack overflow, must not run any more script code).
 func (vm *vm) _restoreStacks(iterLen, refLen uint32, closeIters bool) (ex *Exception) {
-	// Restore other stacks
-	iterTail := vm.iterStack[iterLen:]
-	for i := len(iterTail) - 1; i >= 0; i-- {
-		if iter := iterTail[i].iter; iter != nil && closeIters {
-			ex1 := vm.try(func() {
-				iter.returnIter()
-			})
-			if ex1 != nil && ex == nil {
-				ex = ex1
+	// Restore other stacks (also if closing an iterator gets interrupted)
+	defer func() {
+		iterTail := vm.iterStack[iterLen:]
+		for i := range iterTail {
+			iterTail[i] = iterStackItem{}
+		}
+		vm.iterStack = vm.iterStack[:iterLen]
+		refTail := vm.refStack[refLen:]
+		for i := range refTail {
+			refTail[i] = nil
+		}
+		vm.refStack = vm.refStack[:refLen]
+	}()
+	if closeIters {
+		for i := len(vm.iterStack) - 1; i >= int(iterLen); i-- {
+			if iter := vm.iterStack[i].iter; iter != nil {
+				ex1 := vm.try(func() {
+					iter.returnIter()
+				})
+				if ex1 != nil && ex == nil {
+					ex = ex1
+				}
 			}
 		}
-		iterTail[i] = iterStackItem{}
 	}
-	vm.iterStack = vm.iterStack[:iterLen]
-	refTail := vm.refStack[refLen:]
-	for i := range refTail {
-		refTail[i] = nil
-	}
-	vm.refStack = vm.refStack[:refLen]
 	return
 }
 
